@@ -2001,7 +2001,10 @@ def compile_require(compiler, expr, root, entries):
                 compiler.local_state_stack[-1]['macros'],
                 assignments = assignments,
                 prefix = prefix,
+                target_module_name = compiler.module.__name__,
                 compiler = compiler)
+            # As below, the run-time call repeats the compile-time one.
+            # `names` keeps only the macros that were bound here, in order.
             ret += compiler.compile(Expression([
                 Symbol("setv"),
                 List([Symbol(local_macro_name(m)) for m, _, _ in reqs]),
@@ -2009,8 +2012,18 @@ def compile_require(compiler, expr, root, entries):
                     dotted("hy.macros.require_vals"),
                     String(module_name),
                     Dict(),
+                    Keyword("target_module_name"),
+                    String(compiler.module.__name__),
                     Keyword("assignments"),
-                    List([(String(m), String(m)) for _, m, _ in reqs])])]).replace(expr))
+                    (
+                        String("EXPORTS")
+                        if assignments == "EXPORTS"
+                        else List([List([String(k), String(v)]) for k, v in assignments])
+                    ),
+                    Keyword("prefix"),
+                    String(prefix),
+                    Keyword("names"),
+                    List([String(m) for m, _, _ in reqs])])]).replace(expr))
             ret += ret.expr_as_stmt()
         elif (rest or not readers) and require(
                 module_name,
